@@ -108,7 +108,8 @@ class StringContainsToConcat:
             return []
         k1 = f'{var}_prefix'
         k2 = f'{var}_suffix'
-        if is_var(Node(k1)) or is_var(Node(k2)):
+        if is_var(Node(k1)) or is_var(Node(k2)) \
+           or is_var(Node(f'|{k1}|')) or is_var(Node(f'|{k2}|')):
             return []
         vars = [
             Node('declare-const', k1, 'String'),
